@@ -1,4 +1,4 @@
-import Chewing.Driver.Syl
+import Chewing.Driver.Registry
 /-!
 Model driver.  Reads transcript records `<component> <fn> <args…> => <observed>` from stdin,
 recomputes `<observed>` with the model's executable definitions and prints
@@ -10,11 +10,6 @@ recomputes `<observed>` with the model's executable definitions and prints
 Lines starting with `#` or `!` (statistics, oracle verdicts of the harness) are ignored.
 -/
 namespace Chewing.Driver
-
-def expected (comp fn : String) (args : List String) : Option String :=
-  match comp with
-  | "syl" => sylExpected fn args
-  | _ => none
 
 structure Counts where
   total : Nat := 0
